@@ -16,7 +16,7 @@ func init() { register("C08", propC08) }
 const searcherPkg = "search/searcher"
 
 func propC08(r *Report, tier string) {
-	r.Explanation = "Structural necessary conditions of 'ascending ids; Advance lands on the first match at/after the target': (a) K13 every concrete search.Searcher in bleve defines Next and Advance; (b) K12 look-ahead guard: in every compound searcher's Advance (and the guarded child advances inside BooleanSearcher.Next) each delegated child.Advance(ctx, target) cannot be reached on the branch edge on which the cached position of that searcher compared AT-OR-AFTER the target (Compare(target) >= 0 true / < 0 false): a child already at or past the target is never advanced again; comparisons with the off-by-one operators (>, <=) are violations; the compared value is the value passed on; the method ends by delegating to its own Next; (c) the three places that recompute BooleanSearcher's cursor agree; (d) scorch term-field reader: backward-target re-seek guard present, global id = offsets[k] + local number with the same k that indexes the iterator, in Next and Advance; (e) K14 segment offsets advance by the full segment count (shared with C05)."
+	r.Explanation = "Structural necessary conditions of 'ascending ids; Advance lands on the first match at/after the target': (a) K13 every concrete search.Searcher in bleve defines Next and Advance; (b) K12 look-ahead guard: in every compound searcher's Advance (and the guarded child advances inside BooleanSearcher.Next) each delegated child.Advance(ctx, target) cannot be reached on the branch edge on which the cached position of that searcher compared AT-OR-AFTER the target (Compare(target) >= 0 true / < 0 false): a child already at or past the target is never advanced again; comparisons with the off-by-one operators (>, <=) are violations; the compared value is the value passed on; the method ends by delegating to its own Next; (c) the three places that recompute BooleanSearcher's cursor agree; (d) scorch term-field reader: backward-target re-seek guard present, global id = offsets[k] + local number with the same k that indexes the iterator, in Next and Advance; (e) K14 segment offsets advance by the full segment count (shared with C05). (f) K14 NestedConjunctionSearcher: whenever a child's current match is replaced (Next/Advance) its ancestor chain and join key slots of the same index are recomputed on the continuing path; (g) K6 the 1-hit unadorned iterator reports exhaustion only in (or after entering) the finished state and consumes its hit when returning it."
 	r.NotCovered = "monotonicity of Next itself and the correctness of the merge loops of conjunction/disjunction/phrase (value reasoning over all streams)"
 	ruleSearcherMethodSets(r, "K13-searcher-methods")
 	ruleLookAheadGuard(r, "K12-lookahead-guard")
